@@ -6,7 +6,7 @@ from ..repo import AnalysisError
 from ..report import Ob, RuleSpec
 from ..astutil import (src, guards, flat_guards, calls_in, call_name, kwarg, const_value,
                        iter_own_nodes, ancestors, is_within)
-from ..cfg import cfg_of, Prov
+from ..cfg import cfg_of, Prov, resolve_local
 from .. import regexast as R
 from .. import variants as V
 
@@ -345,14 +345,15 @@ def r5_lookup_key(repo):
                       "returned oracle key must be os.path.join(dirname, package_name, translator.get_filename()) and "
                       "the file written there; found parts %s" % parts))
     f = repo.fn("hephaestus._run")
-    ds = [n for n in iter_own_nodes(f.node) if isinstance(n, ast.Assign) and src(n.targets[0]) == "dirname"]
     td = [n for n in iter_own_nodes(f.node) if isinstance(n, ast.Assign) and isinstance(n.value, ast.Call) and
           src(n.value.func) == "tempfile.mkdtemp"]
-    ok = len(ds) == 1 and len(td) == 1 and _join_parts(ds[0].value) == [src(td[0].targets[0]), "'src'"]
     pc = [c for c in calls_in(f.node) if isinstance(c.func, ast.Name) and c.func.id == f.params[0]]
     rc = [c for c in calls_in(f.node) if isinstance(c.func, ast.Name) and c.func.id == f.params[1]]
-    ok = ok and len(pc) == 1 and src(pc[0].args[1]) == "dirname" and len(rc) == 1 and \
-        src(rc[0].args[2]) == src(td[0].targets[0])
+    ok = len(td) == 1 and len(pc) == 1 and len(pc[0].args) >= 2 and len(rc) == 1 and len(rc[0].args) >= 3
+    if ok:
+        # the directory given to the program writer (a local or the expression itself) is <batch dir>/src
+        ok = _join_parts(resolve_local(f.node, pc[0].args[1], pc[0])) == [src(td[0].targets[0]), "'src'"] and \
+            src(rc[0].args[2]) == src(td[0].targets[0])
     obs.append(Ob("C14-R5", "_run:programs-under-<batch>/src", _w(f), ok,
                   "_run must hand <tmpdir>/src to the program writer and <tmpdir> to the result processor"))
     for name in ("run", "run_parallel"):
